@@ -55,6 +55,7 @@ type verifNext struct {
 	inflight  int
 	maxSeen   int
 	honourCtx bool // fail an export whose context is already done (a downstream that honours cancellation)
+	gate      chan struct{} // when non-nil every export blocks until the gate is closed (a slow downstream)
 	mu        sync.Mutex
 }
 
@@ -86,6 +87,9 @@ func (n *verifNext) begin(ctx context.Context, ids []int64) *verifExport {
 		e.failed = true
 	}
 	n.unlock()
+	if n.gate != nil {
+		<-n.gate
+	}
 	runtime.Gosched() // the export is "in flight": other goroutines may run
 	n.lock()
 	n.inflight--
